@@ -59,6 +59,7 @@ type Contract struct {
 	Ghosts     []GhostDecl
 	Requires   []Clause
 	GhostAssume []Clause
+	OnPanic    []Clause // must hold whenever the function terminates abnormally (panic / exit)
 	Ensures    []Clause
 	Returns    SExpr
 	ReturnsSrc string
@@ -334,7 +335,7 @@ func (cs *ContractSet) LoadContractFile(path string, pkgName string) error {
 					return fail(i, "param NAME: spec")
 				}
 				cur.ParamSpecs[m[1]] = m[2]
-			case "requires", "ensures", "invariant", "ghost-assume":
+			case "requires", "ensures", "invariant", "ghost-assume", "onpanic":
 				props, name, src, err := splitPropsName(rest)
 				if err != nil {
 					return fail(i, "%v", err)
@@ -349,6 +350,8 @@ func (cs *ContractSet) LoadContractFile(path string, pkgName string) error {
 					cur.Requires = append(cur.Requires, cl)
 				case "ghost-assume":
 					cur.GhostAssume = append(cur.GhostAssume, cl)
+				case "onpanic":
+					cur.OnPanic = append(cur.OnPanic, cl)
 				case "ensures":
 					cur.Ensures = append(cur.Ensures, cl)
 				case "invariant":
